@@ -38,6 +38,7 @@ def run(ctx):
             tp_.sync_async(rep, 'R07.s', fam_)
     skippers.binary_arm_reader_accepts_any_bytes(rep, 'R07.c', prog, cg)
     skippers.default_skipper_widths(rep, 'R07.a', prog, cg)
+    skippers.default_skipper_counts_headers(rep, 'R07.a', prog)
     skippers.depth_budget(rep, 'R07.e', prog, include_unsafe=True)
     skippers.progress(rep, 'R07.g', prog)
     unsafe_codec.skipper_tables(rep, 'R07.d', prog, cg)
